@@ -511,6 +511,20 @@ def discharge(ob, ctx, c, timeout_ms, witnesses=None):
         secs = 0.0
     ob.secs = secs + secs0
     ob.solver = 'z3-%s' % z3.get_version_string()
+    if r == z3.unknown:
+        # bounded non-negative integers with div / mod / shifts by constants: exact bit-vector translation (pyvc/bvback.py)
+        from . import bvback
+        t1 = time.time()
+        rb, vals = bvback.solve(hard, neg, max(timeout_ms, 20000))
+        ob.secs += time.time() - t1
+        if rb == z3.unsat:
+            r = z3.unsat
+            ob.solver = 'z3-%s QF_BV (bit-vector translation)' % z3.get_version_string()
+        elif rb == z3.sat:
+            eqs = [iv == v for iv, v in vals.values()]
+            r2, s2, _ = _solve(ob.pc + eqs, neg, timeout_ms)
+            if r2 == z3.sat:
+                r, s = r2, s2
     ob.info['smt_head'] = ('(assert (not %s))' % claim.sexpr())[:400] if timeout_ms else None
     if r == z3.unknown:
         smt2 = s.to_smt2()
